@@ -1,10 +1,12 @@
 pub mod bulkhead;
 pub mod common;
+pub mod retry;
+pub mod timelimiter;
 
 use crate::driver::Prop;
 
 pub fn all() -> Vec<Box<dyn Prop>> {
-    vec![Box::new(bulkhead::C01), Box::new(bulkhead::C07)]
+    vec![Box::new(bulkhead::C01), Box::new(bulkhead::C07), Box::new(timelimiter::C06), Box::new(retry::C05)]
 }
 
 pub fn by_id(id: &str) -> Option<Box<dyn Prop>> {
